@@ -788,7 +788,7 @@ for _nm, _har, _obl, _what, _mut in (
         ("back_unit", "periodic_snap_back_unit_contract", ["stored-in-unit-box"], "statement `coords[i] = ..;`: for L = 1 and every grid index a <= 2^52 - 1 the stored coordinate is in [0, 1)", None)):
     K("builder.periodic_snap." + _nm, ["C16", "C19"], BUILDER, "builder_periodic.rs", _har, "K-slice",
       [dict(file=BUILDER, name="DelaunayTriangulationBuilder::build_periodic (K-slice: per-axis grid snap, " + _nm + ")", anchor=_PER_FN)],
-      slices=_SL_PERIODIC, timeout=1500, obligations=_obl,
+      slices=_SL_PERIODIC, tier="thorough" if _nm == "back" else "quick", timeout=3000 if _nm == "back" else 900, obligations=_obl,
       assumed=["K-slice of the canonical_f64 closure of build_periodic: " + _what + "; perturb_units passed as ANY function with values in +-MAX_OFFSET_UNITS (proved by builder.perturb_range); "
                "the three steps front / clamp / back compose by reading (u and adjusted_u are the only values passed on); everything else in build_periodic (image expansion, the Delaunay build, the quotient) dropped"],
       claim="periodic (image-point) construction, per-axis snap (" + _nm + "): " + _what, mutant=_mut)
